@@ -12,10 +12,10 @@ THEOREMS = ["ZI.Adapt.C14_order", "ZI.Adapt.C14_conform_wins", "ZI.Adapt.C14_rai
             "ZI.Adapt.C14_provided", "ZI.Adapt.C14_hooks", "ZI.Adapt.C14_alternate", "ZI.Adapt.C14_custom",
             "ZI.Adapt.C14_registry", "ZI.Adapt.C14_twin", "ZI.Adapt.callPy_spec", "ZI.Adapt.runHooks_spec"]
 
-CONFS = ["a", "E", "A11", "n", "v21", "r12"]
-HOOKS = ["n", "v3%d", "r4%d"]
+CONFS = ["a", "E", "A11", "n", "v21", "r12", "Q13"]
+HOOKS = ["n", "v3%d", "r4%d", "N", "Q5%d"]
 ALTS = ["-", "77", "0"]
-CUSTOMS = ["-", "n", "v55", "r56"]
+CUSTOMS = ["-", "n", "v55", "r56", "Q57"]
 
 
 def gen_lines(rnd, tier):
@@ -23,7 +23,7 @@ def gen_lines(rnd, tier):
     maxlen = 3
     hooklists = ["-"]
     for n in range(1, maxlen + 1):
-        for combo in itertools.product(range(3), repeat=n):
+        for combo in itertools.product(range(len(HOOKS)), repeat=n):
             hooklists.append(",".join(HOOKS[c] % k if "%" in HOOKS[c] else HOOKS[c] for k, c in enumerate(combo)))
     for cf in CONFS:
         for prov in "01":
@@ -40,7 +40,7 @@ def gen_lines(rnd, tier):
     if tier == "thorough":
         for _ in range(20000):
             n = rnd.randint(4, 6)
-            hs = ",".join((HOOKS[c] % k if "%" in HOOKS[c] else HOOKS[c]) for k, c in enumerate(rnd.choices(range(3), weights=[4, 1, 1], k=n)))
+            hs = ",".join((HOOKS[c] % k if "%" in HOOKS[c] else HOOKS[c]) for k, c in enumerate(rnd.choices(range(len(HOOKS)), weights=[4, 1, 1, 2, 1], k=n)))
             L.append("call %s %s %s %s %s" % (rnd.choice(CONFS), rnd.choice("01"), hs, rnd.choice(ALTS), rnd.choice(CUSTOMS)))
     return L
 
@@ -49,8 +49,15 @@ def to_model(line):
     """the model has no registry: a registry hook is the hook returning what queryAdapter finds; `E` (AttributeError
     from the attribute access) is the absent case of the statement"""
     f = line.split()
-    hs = ",".join({"R0": "n", "Rn": "n"}.get(t, "v" + t[2:] if t.startswith("Rv") else t) for t in f[3].split(","))
-    return "call %s %s %s %s %s" % ("a" if f[1] == "E" else f[1], f[2], hs, f[4], f[5])
+    def tok(t):
+        if t in ("R0", "Rn", "N"):
+            return "n"
+        if t.startswith("Rv"):
+            return "v" + t[2:]
+        return "r" + t[1:] if t[0] == "Q" else t
+    hs = ",".join(tok(t) for t in f[3].split(","))
+    cf = "a" if f[1] == "E" else ("r" + f[1][1:] if f[1][0] == "Q" else f[1])
+    return "call %s %s %s %s %s" % (cf, f[2], hs, f[4], "r" + f[5][1:] if f[5][0] == "Q" else f[5])
 
 
 def spec(line):
@@ -64,13 +71,13 @@ def spec(line):
         log.append("c")
         if cf.startswith("v"):
             return "val " + cf[1:], log
-        if cf.startswith("r"):
+        if cf[0] in "rQ":
             return "exc " + cf[1:], log
     if cu != "-":
         log.append("x")
         if cu.startswith("v"):
             return "val " + cu[1:], log
-        if cu.startswith("r"):
+        if cu[0] in "rQ":
             return "exc " + cu[1:], log
     else:
         if prov == "1":
@@ -79,7 +86,7 @@ def spec(line):
             log.append("h%d" % k)
             if t.startswith("v") or t.startswith("Rv"):
                 return "val " + t.lstrip("Rv"), log
-            if t.startswith("r"):
+            if t[0] in "rQ":
                 return "exc " + t[1:], log
     if alt != "-":
         return "val " + alt, log
@@ -153,8 +160,8 @@ def check(tier):
         core.lean_failure_violation(chk)
     chk.samples.extend([lines[7], lines[len(lines) // 2], lines[-1]])
     return chk.finish(len(lines) * 2, chk.counters.get("calls_with_3_or_more_steps", 0),
-                      "COMPLETE product: 6 __conform__ behaviours (absent, AttributeError from access, other exception from access, returns None, returns value, raises) "
-                      "x provided x all hook lists of length 0-3 over {None, value, raises} x alternate {absent, value, None} x custom __adapt__ {absent, None, value, raises} "
+                      "COMPLETE product: 7 __conform__ behaviours (absent, AttributeError from access, other exception from access, returns None, returns value, raises, raises AttributeError from its body) "
+                      "x provided x all hook lists of length 0-3 over {None, value, raises, None after a nested adaptation, raises AttributeError} x alternate {absent, value, None} x custom __adapt__ {absent, None, value, raises} "
                       "+ real-registry hook cases (+ sampled hook lists of length 4-6 in the thorough tier), both twins; distinct_nontrivial = calls in which at least "
                       "three steps of the protocol must run", dict(exhaustive=(tier == "quick")))
 
